@@ -40,7 +40,7 @@ class Snapshot:
         return len(self.records)
 
 
-def snap(root, mask=(), skip_attrs=()):
+def snap(root, mask=(), skip_attrs=(), drop_classes=()):
     """mask: attribute names whose values are replaced by '*' (on every object);
     skip_attrs: attribute names left out entirely."""
     memo = {}
@@ -48,6 +48,7 @@ def snap(root, mask=(), skip_attrs=()):
     records = []
     mask = set(mask)
     skip_attrs = set(skip_attrs)
+    drop_classes = set(drop_classes)     # class names whose instances (and class-keyed buckets) are left out
 
     def ref(o):
         k = id(o)
@@ -77,6 +78,8 @@ def snap(root, mask=(), skip_attrs=()):
             for k, v in x.items():
                 if drop_empty and hasattr(v, "__len__") and len(v) == 0:
                     continue
+                if drop_classes and ((isinstance(k, type) and k.__name__ in drop_classes) or type(k).__name__ in drop_classes):
+                    continue
                 items.append((enc(k), enc(v)))
             return (type(x).__name__, items)
         if isinstance(x, (set, frozenset)):
@@ -88,6 +91,8 @@ def snap(root, mask=(), skip_attrs=()):
         if type(x).__name__ == "interp1d" and hasattr(x, "x") and hasattr(x, "y"):
             return ("interp1d", enc(np.asarray(x.x)), enc(np.asarray(x.y)), getattr(x, "_kind", None))
         if hasattr(x, "__dict__") or hasattr(x, "__slots__"):
+            if drop_classes and type(x).__name__ in drop_classes:
+                return ("dropped", type(x).__name__)
             return ref(x)
         return ("repr", repr(x))
 
